@@ -60,9 +60,14 @@ impl Limb {
 pub const fn sbb(self, rhs: Limb, borrow: Limb) -> (ret__: (Limb, Limb))
 //@+
     ensures ret__.1.0 == 0 || ret__.1.0 == u64::MAX,
-        ret__.0.0 as int - bb(ret__.1) * B() == self.0 as int - rhs.0 as int - (borrow.0 >> 63) as int
+        ret__.0.0 as int - bb(ret__.1) * B() == self.0 as int - rhs.0 as int - (borrow.0 >> 63) as int,
+        (borrow.0 == 0 || borrow.0 == u64::MAX) ==> ret__.0.0 as int - bb(ret__.1) * B() == self.0 as int - rhs.0 as int - bb(borrow)
 //@-
 {
+//@+
+    let ghost bw = borrow.0;
+    assert((bw == 0 || bw == 0xffff_ffff_ffff_ffffu64) ==> bw >> 63 == (if bw == 0xffff_ffff_ffff_ffffu64 { 1u64 } else { 0u64 })) by (bit_vector);
+//@-
         let (res, borrow) = sbb(self.0, rhs.0, borrow.0);
         (Limb(res), Limb(borrow))
     }
